@@ -351,6 +351,8 @@ def match_contract(ctx, F, b, R, effs, link, calls):
                         ctx.bad('C12.R2', site + '#ATTACH:order:' + e.kind, 'the %s happens before the slot p.children[l] is tested empty' % ('arena insertion' if e.kind == 'insert' else 'p.isleaf write'), e.span)
                         ok = False
         if ok:
+            ok = _all_or_nothing(ctx, cfg, site + '#ATTACH', ins + slot + leaf, 'links would not mirror / flag would disagree with the children')
+        if ok:
             ctx.ok('C12.R2', site + '#ATTACH', 'insert(TreeNode::new(v, Some(p))); p.children[l] := Some(new) under empty-slot test; p.isleaf := false', b.span)
         return True
     # ---------------- SPLICE
@@ -404,6 +406,8 @@ def match_contract(ctx, F, b, R, effs, link, calls):
                     ctx.bad('C12.R2', site + '#SPLICE:single-child-guard', 'splice effects are not guarded by num_children(p) == 1 (a second child would be orphaned)', e.span)
                     ok = False
                     break
+            if ok:
+                ok = _all_or_nothing(ctx, cfg, site + '#SPLICE', sl + pa + rem, 'grandparent slot, child.parent and the removal must happen together')
             if ok:
                 ctx.ok('C12.R2', site + '#SPLICE', 'g.children[gl] := Some(c); c.parent := Some(g); remove(p) under num_children(p)==1', b.span)
             return True
@@ -459,6 +463,8 @@ def match_contract(ctx, F, b, R, effs, link, calls):
         if slot and not cfg.reaches(slot[0].bb, rem[0].bb):
             ctx.bad('C12.R2', site + '#DETACH:remove', 'arena removal not reached after clearing the slot', rem[0].span)
             ok = False
+        if ok:
+            ok = _all_or_nothing(ctx, cfg, site + '#DETACH', slot + rem, 'slot and arena entry must go together (the Err of clearing the descendants happens before, see R3)')
         if ok:
             ctx.ok('C12.R2', site + '#DETACH', 'c = p.children[l]; CLEAR-DESC(c); p.children[l] := None; p.isleaf := true if num_children(p)==0; remove(c)', b.span)
         return True
@@ -530,11 +536,42 @@ def match_contract(ctx, F, b, R, effs, link, calls):
         if len(leaf) != 1 or leaf[0].value != ('const', True) or len(sets) != 1:
             ctx.bad('C12.R2', site + '#CLEAR-DESC:isleaf', 'subtree root must be flagged leaf (and nothing else written)', b.span)
             ok = False
-        # post writes happen on every Ok path: they are not inside the loop and are reachable from the loop exit
+        # post writes happen on every Ok path: after the worklist loop, unconditionally
+        if hdrs and leaf:
+            h = hdrs[0]
+            inner = [x for x in cfg.loop_headers() if isinstance(x, int) and setall[0].bb in cfg.loop_of(x) and x != h]
+            post_leaf = leaf[0].bb not in cfg.loop_of(h) and cfg.postdominates(leaf[0].bb, h)
+            post_slots = bool(inner) and inner[0] not in cfg.loop_of(h) and cfg.postdominates(inner[0], h)
+            if not (post_leaf and post_slots):
+                ctx.bad('C12.R2', site + '#CLEAR-DESC:repair-unconditional',
+                        'the repair of the subtree root (isleaf := true, slots := None) is skipped on some path after descendants were removed', leaf[0].span)
+                ok = False
         if ok:
             ctx.ok('C12.R2', site + '#CLEAR-DESC', 'worklist(children(r)): pop k, push children(k), remove(k); then r.isleaf := true, r.children[*] := None', b.span)
         return True
     return False
+
+
+def _all_or_nothing(ctx, cfg, site, effs, what):
+    """Every unconditional effect of a contract lies on every path from the first effect to a normal return."""
+    effs = [e for e in effs if e is not None]
+    if len(effs) < 2:
+        return True
+    first = None
+    for e in effs:
+        if all(cfg.dominates(e.bb, o.bb) for o in effs):
+            first = e
+    if first is None:
+        ctx.bad('C12.R2', site + ':effects-unordered', 'the link updates of this mutator are not on one path', effs[0].span)
+        return False
+    ok = True
+    for e in effs:
+        if e is first:
+            continue
+        if not (cfg.postdominates(e.bb, first.bb) or e.bb == first.bb):
+            ctx.bad('C12.R2', site + ':partial-update', 'after the first link update a path reaches the return without the paired update (%r): %s' % (e, what), e.span)
+            ok = False
+    return ok
 
 
 def _switch_after(b, cfg, bb):
